@@ -123,7 +123,7 @@ PROPS["C01"] = {
              "optional field at its zero value, an Any, or text needing escapes / non-BMP runes. Distinct by hash(schema bytes, root, message bytes)."),
     "assumptions": ["the harness's reading of which proto shapes are oneof wrappers / exposed oneofs / flattened (j5ref) matches the documented annotations"],
     "lanes": [
-        lane("TestRaw", "raw", 1500, 6000, shards=16, must_classes=["msg:exposed-oneof-set", "msg:wrapper-oneof-set", "msg:map-of-messages", "schema:flatten", "schema:any"]),
+        lane("TestRaw", "raw", 1500, 6000, shards=16, must_classes=["msg:exposed-oneof-set", "msg:wrapper-oneof-set", "msg:map-of-messages", "schema:flatten", "schema:any", "schema:plain-oneof-named-type"]),
         lane("TestCompiled", "compiled", 250, 800, shards=16),
     ],
 }
@@ -291,7 +291,7 @@ PROPS["C14"] = {
              "Distinct by hash(sources, file order, call order)."),
     "assumptions": [],
     "lanes": [
-        lane("TestDeterminism", "determinism", 150, 800, shards=16, must_classes=["enum-option-info", "multi-package", "multi-file-package"]),
+        lane("TestDeterminism", "determinism", 150, 800, shards=16, must_classes=["enum-option-info", "multi-package", "multi-file-package", "stale-generated-file"]),
     ],
 }
 
@@ -401,7 +401,7 @@ PROPS["C17"] = {
     "rule": ("entity: j5sgen.Draw(EntityOnly) with 1-2 files each holding an entity. Non-trivial: >=2 keys with different flag combinations, or >=1 event and >=1 summary. Distinct by hash of the sources."),
     "assumptions": ["README entity section; the statement of C17"],
     "lanes": [
-        lane("TestEntity", "entity", 200, 1200, shards=16, must_classes=["shard-key", "foreign-key", "tenant-key", "events:0", "summaries:2", "commands:2"]),
+        lane("TestEntity", "entity", 200, 1200, shards=16, must_classes=["shard-key", "foreign-key", "tenant-key", "events:0", "summaries:2", "commands:2", "command-options"]),
     ],
 }
 
